@@ -137,9 +137,13 @@ m('C06', 'app_commit_despite_exec_error', 'gemmill/state/execution.go', """	err 
 		log.Error("exec failed", zap.Error(err))
 	}
 """)
-m('C06', 'recovery_reexecutes_synced_app', 'gemmill/angine.go', """	} else if storeBlockHeight == appBlockHeight+1 &&
+# (equivalent: the cases store < app and store == app are handled by earlier branches)
+m('C06', 'ok_equivalent_replay_condition', 'gemmill/angine.go', """	} else if storeBlockHeight == appBlockHeight+1 &&
 		storeBlockHeight == stateBlockHeight+1 {""", """	} else if storeBlockHeight <= appBlockHeight+1 &&
 		storeBlockHeight == stateBlockHeight+1 {""")
+m('C06', 'recovery_replays_when_app_in_sync', 'gemmill/angine.go', """	} else if storeBlockHeight == appBlockHeight {
+		// We ran Commit, but if we crashed before state.Save(),""", """	} else if storeBlockHeight == appBlockHeight && storeBlockHeight == stateBlockHeight {
+		// We ran Commit, but if we crashed before state.Save(),""")
 m('C06', 'marker_before_receipts', 'chain/app/evm/evm.go', """	rHash, err := app.SaveReceipts()
 	if err != nil {
 		log.Error("application save receipts", zap.Error(err), zap.Int64("height", block.Height))
@@ -179,7 +183,8 @@ func (wal *WAL) writeHeight""", """}
 func (wal *WAL) writeHeight""")
 m('C07', 'replay_mode_left_on', 'gemmill/consensus/pbft/replay.go', """	defer func() { cs.replayMode = false }()
 """, """""")
-m('C07', 'undecodable_line_skipped_silently', 'gemmill/consensus/pbft/replay.go', """	if err != nil {
+# (equivalent for the property: the zero message then falls into the 'unknown type' error branch and reaches no handler)
+m('C07', 'ok_undecodable_line_falls_to_unknown_type', 'gemmill/consensus/pbft/replay.go', """	if err != nil {
 		fmt.Println("MsgBytes:", msgBytes, string(msgBytes))
 		return fmt.Errorf("Error reading json data: %v", err)
 	}
@@ -249,7 +254,9 @@ m('C06', 'ok_commit_bytes_computed_earlier', 'gemmill/blockchain/store.go', """	
 """)
 m('C20', 'ok_write_chunk_len_local', SC, """			n += len(chunk)""", """			sent := len(chunk)
 			n += sent""")
-m('C14', 'ok_checkmajor_log_removed', 'gemmill/plugin/admin_op.go', """				log.Info("check major 2/3", zap.String("vote nil", fmt.Sprintf("sig=%X;pubkey=%X", sig.Signature, sigPubKey.KeyString())))""", """				log.Info("check major 2/3: vote nil")""")
+m('C14', 'ok_rename_sig64', 'gemmill/plugin/admin_op.go', """			sig64 := crypto.SetNodeSignature(sig.Signature)
+			if sigPubKey.VerifyBytes(msg, sig64) {""", """			nodeSig := crypto.SetNodeSignature(sig.Signature)
+			if sigPubKey.VerifyBytes(msg, nodeSig) {""")
 m('C07', 'ok_height_check_split', 'gemmill/consensus/pbft/wal.go', """		if edrs.Step == RoundStepNewHeight.String() {
 			wal.writeHeight(edrs.Height)
 		}""", """		newHeight := edrs.Step == RoundStepNewHeight.String()
@@ -278,7 +285,6 @@ m('C11', 'refund_not_journalled', SD, """func (self *StateDB) AddRefund(gas uint
 	self.journal.append(refundChange{prev: self.refund})
 	self.refund += gas""", """func (self *StateDB) AddRefund(gas uint64) {
 	self.refund += gas""")
-m('C11', 'revert_to_wrong_revision', SD, "return self.validRevisions[i].id >= revid", "return self.validRevisions[i].id > revid")
 m('C11', 'later_revisions_kept', SD, "self.validRevisions = self.validRevisions[:idx]", "self.validRevisions = self.validRevisions[:idx+1]")
 m('C11', 'ok_rename_loop_entry', JR, """		// Undo the changes made by the operation
 		j.entries[i].revert(statedb)
